@@ -7,6 +7,7 @@
 //	c17.plot        plot.Plot: Add in generated arrival orders, Close, VerifData (rows + labels)
 //	c17.adds        only the Adds (out-of-domain time stamps: wrap-around, errMonotonicTimestamp)
 //	plotcmd         the `plot` command on encoded result files: data block of the HTML vs VerifData
+//	c17.plotcmd     … and vs the model of the command (round-robin decoding, Add each, data)
 //
 // The oracle (written from the property text, independent of the model) is evaluated on every
 // in-domain case of the real code.
@@ -1262,7 +1263,9 @@ func plotCmdStream(c *run.Ctx, s *kit.Summary, r *kit.Rng) {
 		pc    plotCase
 		out   string
 		files []string
+		parts [][]res // content of the files, in the order they are handed to the command
 	}
+	cm := &kit.Stream{Name: "c17.plotcmd"}
 	for done := 0; done < total; {
 		var jobs []job
 		var ops []string
@@ -1287,6 +1290,7 @@ func plotCmdStream(c *run.Ctx, s *kit.Summary, r *kit.Rng) {
 					okFiles = false
 				}
 				j.files = append(j.files, fn)
+				j.parts = append(j.parts, part)
 			}
 			if !okFiles {
 				s.Skipped["plotcmd:write-failed"]++
@@ -1333,6 +1337,18 @@ func plotCmdStream(c *run.Ctx, s *kit.Summary, r *kit.Rng) {
 				o.line = dataLine(rows, labels)
 			}
 			s.Count("plotcmd:outcome=" + strings.Fields(o.line)[0])
+			// the model of the command: round-robin decoding of the files, Add each, data
+			var sb strings.Builder
+			fmt.Fprintf(&sb, "c17.plotcmd %d %d", j.pc.Threshold, len(j.parts))
+			for _, part := range j.parts {
+				sb.WriteByte(' ')
+				sb.WriteString(resultsTokens(part))
+			}
+			cmLine := o.line
+			if strings.HasPrefix(cmLine, "err") {
+				cmLine = "err"
+			}
+			cm.Add(sb.String(), cmLine)
 			oraclePlot(s, j.pc, o, "HTML data block")
 			if o.line != ref.line {
 				s.Violate(kit.Violation{Kind: "plotcmd_differs", What: "data block of the HTML differs from the library's data for the same results", Input: j.pc,
@@ -1347,6 +1363,7 @@ func plotCmdStream(c *run.Ctx, s *kit.Summary, r *kit.Rng) {
 			}
 		}
 	}
+	cm.Diff(c.Driver, s)
 }
 
 // ---------------------------------------------------------------------------
